@@ -202,6 +202,92 @@ func registeredBy(p *Program, opener *ssa.Function) map[string]*ssa.Function {
 	return out
 }
 
+// globalInitElems: the string constants and functions the package initialiser puts into the
+// composite value of a package-level variable, and whether anything outside the initialiser
+// writes the variable or its elements.
+func globalInitElems(p *Program, g *ssa.Global) (consts []string, fns []*ssa.Function, mutated bool) {
+	if g.Pkg == nil {
+		return nil, nil, true
+	}
+	initFn := g.Pkg.Func("init")
+	if initFn == nil {
+		return nil, nil, true
+	}
+	rootOf := func(addr ssa.Value) ssa.Value {
+		for i := 0; i < 32; i++ {
+			switch y := addr.(type) {
+			case *ssa.IndexAddr:
+				addr = y.X
+				continue
+			case *ssa.FieldAddr:
+				addr = y.X
+				continue
+			case *ssa.Slice:
+				addr = y.X
+				continue
+			}
+			break
+		}
+		return addr
+	}
+	backing := map[ssa.Value]bool{g: true}
+	for _, b := range initFn.Blocks {
+		for _, in := range b.Instrs {
+			if st, ok := in.(*ssa.Store); ok && st.Addr == ssa.Value(g) {
+				for x := range BackwardSlice(st.Val) {
+					if al, ok := x.(*ssa.Alloc); ok {
+						backing[al] = true
+					}
+				}
+			}
+		}
+	}
+	for _, b := range initFn.Blocks {
+		for _, in := range b.Instrs {
+			st, ok := in.(*ssa.Store)
+			if !ok || !backing[rootOf(st.Addr)] {
+				continue
+			}
+			switch v := st.Val.(type) {
+			case *ssa.Const:
+				if v.Value != nil && v.Value.Kind() == constant.String {
+					consts = append(consts, constant.StringVal(v.Value))
+				}
+			case *ssa.Function:
+				fns = append(fns, v)
+			case *ssa.ChangeType:
+				if f, ok := v.X.(*ssa.Function); ok {
+					fns = append(fns, f)
+				}
+			case *ssa.MakeClosure:
+				if f, ok := v.Fn.(*ssa.Function); ok {
+					fns = append(fns, f)
+				}
+			}
+		}
+	}
+	for _, fn := range p.RepoFuncs() {
+		if fn == initFn {
+			continue
+		}
+		for _, b := range fn.Blocks {
+			for _, in := range b.Instrs {
+				if st, ok := in.(*ssa.Store); ok {
+					r := rootOf(st.Addr)
+					if r == ssa.Value(g) {
+						mutated = true
+					}
+					if u, ok := r.(*ssa.UnOp); ok && u.X == ssa.Value(g) {
+						mutated = true
+					}
+				}
+			}
+		}
+	}
+	sort.Strings(consts)
+	return consts, fns, mutated
+}
+
 func sigIsLG(f *ssa.Function) bool {
 	s := f.Signature
 	return s.Params().Len() == 1 && strings.HasSuffix(s.Params().At(0).Type().String(), "gopher-lua.LState") && s.Results().Len() == 1 && s.Results().At(0).Type().String() == "int"
@@ -245,6 +331,26 @@ func runC16(c *Ctx) {
 			}
 		}
 	}
+	// ... or listed in a package-level table that RunLuaScript (or a helper) reads
+	scopeGlobals := map[*ssa.Global]bool{}
+	for _, b := range scopeBlocks {
+		for _, in := range b.Instrs {
+			for _, op := range in.Operands(nil) {
+				if g, ok := (*op).(*ssa.Global); ok && g.Pkg == run.Pkg {
+					scopeGlobals[g] = true
+				}
+			}
+		}
+	}
+	for g := range scopeGlobals {
+		_, fns, _ := globalInitElems(p, g)
+		for _, f := range fns {
+			if sigIsLG(f) && !seenOp[f] {
+				seenOp[f] = true
+				openers = append(openers, f)
+			}
+		}
+	}
 	sort.Slice(openers, func(i, j int) bool { return FuncName(openers[i]) < FuncName(openers[j]) })
 	if len(openers) < 5 {
 		c.Ob("R16.1", "RunLuaScript#openers", run.Pos(), false, "library openers (math, base, table, string, json)", fmt.Sprintf("anchor: expected >= 5, found %d", len(openers)))
@@ -259,7 +365,63 @@ func runC16(c *Ctx) {
 		}
 		name := TermOf(args[1])
 		val := TermOf(args[2])
-		if name.Op != "const" || !(val.Op == "global" && strings.HasSuffix(val.Name, ".LNil")) {
+		if !(val.Op == "global" && strings.HasSuffix(val.Name, ".LNil")) {
+			continue
+		}
+		if name.Op != "const" {
+			// `for _, n := range forbidden { l.SetGlobal(n, lua.LNil) }` over a package-level list of
+			// constants that nothing else writes: every listed name is removed, provided the loop
+			// itself lies on every path to DoString
+			var names []string
+			okList := false
+			for x := range BackwardSlice(args[1]) {
+				g, isG := x.(*ssa.Global)
+				if !isG || g.Pkg != run.Pkg {
+					continue
+				}
+				cs, _, mutated := globalInitElems(p, g)
+				if len(cs) > 0 && !mutated {
+					names, okList = cs, true
+				}
+			}
+			if !okList {
+				continue
+			}
+			loop := loopBlocks(sg.Block())
+			all := len(dos) > 0 && loop[sg.Block()]
+			for _, d := range dos {
+				if r, _ := CanReach(Entry(run), func(in ssa.Instruction) bool { return in == d.(ssa.Instruction) }, ReachOpts{CutInstr: func(in ssa.Instruction) bool { return loop[in.Block()] }}); r {
+					all = false
+				}
+			}
+			// inside the loop nothing skips the call: from the loop's entry block the header cannot be
+			// reached again (next iteration / exit test) without passing the call
+			if all {
+				for hb := range loop {
+					isHeader := false
+					for _, pr := range hb.Preds {
+						if !loop[pr] {
+							isHeader = true
+						}
+					}
+					if !isHeader {
+						continue
+					}
+					for _, sb := range hb.Succs {
+						if !loop[sb] {
+							continue
+						}
+						if r, _ := CanReach(Point{Block: sb}, func(in ssa.Instruction) bool { return in.Block() == hb }, ReachOpts{CutInstr: func(in ssa.Instruction) bool { return in == sg.(ssa.Instruction) }}); r && sb != hb {
+							all = false
+						}
+					}
+				}
+			}
+			if all {
+				for _, n := range names {
+					removed[n] = true
+				}
+			}
 			continue
 		}
 		all := len(dos) > 0
@@ -412,51 +574,81 @@ func runC16(c *Ctx) {
 	} else {
 		var marks []*ssa.MapUpdate
 		unmark := ""
-		for _, b := range fn.Blocks {
-			for _, in := range b.Instrs {
-				switch x := in.(type) {
-				case *ssa.MapUpdate:
-					if TermOf(x.Map).Any(MField("visited")) {
-						if v := TermOf(x.Value); v.Op == "const" && v.Name == "true" {
-							marks = append(marks, x)
-						} else {
-							unmark = "visited[...] is reset at " + p.Pos(x.Pos())
+		// the encoder may be split into helpers (table / array / object): the rule covers MarshalJSON
+		// and everything of the package it reaches
+		encFns := samePkgClosure(p, fn)
+		for _, ef := range encFns {
+			for _, b := range ef.Blocks {
+				for _, in := range b.Instrs {
+					switch x := in.(type) {
+					case *ssa.MapUpdate:
+						if TermOf(x.Map).Any(MField("visited")) {
+							if v := TermOf(x.Value); v.Op == "const" && v.Name == "true" {
+								marks = append(marks, x)
+							} else {
+								unmark = "visited[...] is reset at " + p.Pos(x.Pos())
+							}
 						}
-					}
-				case ssa.CallInstruction:
-					if CalleeName(x.Common()) == "delete" && len(x.Common().Args) > 0 && TermOf(x.Common().Args[0]).Any(MField("visited")) {
-						unmark = "a table is removed from visited at " + p.Pos(x.Pos()) + ": the children are encoded later (inside json.Marshal), so a cyclic table recurses without bound"
+					case ssa.CallInstruction:
+						if CalleeName(x.Common()) == "delete" && len(x.Common().Args) > 0 && TermOf(x.Common().Args[0]).Any(MField("visited")) {
+							unmark = "a table is removed from visited at " + p.Pos(x.Pos()) + ": the children are encoded later (inside json.Marshal), so a cyclic table recurses without bound"
+						}
 					}
 				}
 			}
 		}
 		c.Ob("R16.4", "MarshalJSON#never-unmark", fn.Pos(), unmark == "", "a visited table stays marked", unmark)
+		isMark := func(in ssa.Instruction) bool {
+			for _, mk := range marks {
+				if in == ssa.Instruction(mk) {
+					return true
+				}
+			}
+			return false
+		}
+		// markedBefore: on every path to `at` (through the chain of same-package callers, when the
+		// function holding `at` is a helper) a mark has been executed
+		var markedBefore func(at ssa.Instruction, depth int) bool
+		markedBefore = func(at ssa.Instruction, depth int) bool {
+			f := at.Parent()
+			if r, _ := CanReach(Entry(f), func(in ssa.Instruction) bool { return in == at }, ReachOpts{CutInstr: isMark}); !r {
+				return true
+			}
+			if f == fn || depth >= 3 {
+				return false
+			}
+			cs := p.Callers(f)
+			if len(cs) == 0 {
+				return false
+			}
+			for _, site := range cs {
+				if site.Kind != "static" || site.Instr == nil || !markedBefore(site.Instr, depth+1) {
+					return false
+				}
+			}
+			return true
+		}
 		// every nested json.Marshal of children happens after the mark and under visited == false
 		n := 0
-		for _, call := range CallsIn(fn, "encoding/json.Marshal") {
-			fs := FactsAtInstr(call.(ssa.Instruction))
-			if !HasFact(fs, FTrue(func(t *Term) bool {
-				return t.Op == "extract" && t.Idx == 1 && t.Args[0].Op == "typeassert" && strings.Contains(t.Args[0].Name, "LTable")
-			})) &&
-				!SliceHas(call.Common().Args[0], func(t *Term) bool { return t.Op == "make" || t.Op == "index" }) {
-				continue
-			}
-			argT := call.Common().Args[0].Type().String()
-			if !strings.Contains(argT, "jsonValue") {
-				// the argument is boxed: look at the slice
-				if !SliceHas(call.Common().Args[0], func(t *Term) bool { return t.Op == "make" }) {
+		for _, ef := range encFns {
+			for _, call := range CallsIn(ef, "encoding/json.Marshal") {
+				fs := FactsAtInstr(call.(ssa.Instruction))
+				// children: the argument is a slice or map of jsonValue built here
+				isChildren := false
+				for x := range BackwardSlice(call.Common().Args[0]) {
+					ts := x.Type().String()
+					if (strings.HasPrefix(ts, "[]") || strings.HasPrefix(ts, "map[")) && strings.Contains(ts, "jsonValue") {
+						isChildren = true
+					}
+				}
+				if !isChildren {
 					continue
 				}
+				n++
+				marked := len(marks) > 0 && markedBefore(call.(ssa.Instruction), 0)
+				guard := HasFact(fs, FFalse(func(t *Term) bool { return t.Op == "lookup" && t.Args[0].Any(MField("visited")) }))
+				c.Ob("R16.4", "MarshalJSON#descend", call.Pos(), marked && guard, "children are encoded only for a table that was not visited and has been marked", ifs(!(marked && guard), "descent without visited[t]==false check or before visited[t]=true")).WithFacts(fs)
 			}
-			n++
-			marked := len(marks) > 0
-			for _, mk := range marks {
-				if r, _ := CanReach(Entry(fn), func(in ssa.Instruction) bool { return in == call.(ssa.Instruction) }, ReachOpts{CutInstr: func(in ssa.Instruction) bool { return in == ssa.Instruction(mk) }}); r {
-					marked = false
-				}
-			}
-			guard := HasFact(fs, FFalse(func(t *Term) bool { return t.Op == "lookup" && t.Args[0].Any(MField("visited")) }))
-			c.Ob("R16.4", "MarshalJSON#descend", call.Pos(), marked && guard, "children are encoded only for a table that was not visited and has been marked", ifs(!(marked && guard), "descent without visited[t]==false check or before visited[t]=true")).WithFacts(fs)
 		}
 		if n == 0 {
 			c.Ob("R16.4", "MarshalJSON#descend", fn.Pos(), false, "recursive descent sites", "anchor not found")
